@@ -211,6 +211,7 @@ def assignments(atoms, N, with_unordered=False):
     {< 0, == 0, > 0}; other boolean atoms are independent."""
     groups = {}
     free = []
+    eqpairs = {}   # group -> (x, y): under the outcome `eq` the two operands are the same value, so y may replace x in the leaves
     for a in atoms:
         if a[0] in ("<", "<=", "=="):
             try:
@@ -222,6 +223,8 @@ def assignments(atoms, N, with_unordered=False):
                 free.append(a)
                 continue
             groups.setdefault(g, []).append((a, fwd, d.n.is_zero()))
+            if _simple_operand(a[1]) and _simple_operand(a[2]) and a[1] != a[2]:
+                eqpairs.setdefault(g, tuple(sorted([a[1], a[2]], key=repr)))
         else:
             free.append(a)
     gkeys = list(groups)
@@ -234,10 +237,28 @@ def assignments(atoms, N, with_unordered=False):
                 if iszero:
                     o = "eq" if oc != "un" else "un"
                 base[a] = {"<": o == "lt", "<=": o in ("lt", "eq"), "==": o == "eq"}[a[0]]
+        eqs = [eqpairs[g] for g, oc in zip(gkeys, combo) if oc == "eq" and g in eqpairs]
         for vals in itertools.product([True, False], repeat=len(free)):
             f = dict(base)
             f.update(zip(free, vals))
+            if eqs:
+                f[EQ_KEY] = eqs
             yield f
+
+
+EQ_KEY = ("__equal_operands__",)
+
+
+def _simple_operand(t):
+    return isinstance(t, tuple) and t and t[0] in ("arg", "pre", "get", "select", "ret", "proj", "lv", "ivar") and not is_const(t)
+
+
+def _replace(t, m):
+    if not isinstance(t, tuple) or not t:
+        return t
+    if t in m:
+        return m[t]
+    return tuple(_replace(x, m) if isinstance(x, tuple) else x for x in t)
 
 
 def subst_bool_atoms(t, facts):
@@ -274,7 +295,14 @@ def equal(t1, t2, N=None, limit=4096, with_unordered=False):
         n += 1
         if n > limit:
             return False, {"error": "too many condition outcomes"}
+        eqs = f.pop(EQ_KEY, None)
         a, b = resolve(t1, f), resolve(t2, f)
+        if eqs:
+            # on this outcome some operand pairs are equal: a leaf may be written with either of them (`x - y` is 0 here)
+            m = {}
+            for x, y in eqs:
+                m[y] = m.get(x, x)
+            a, b = _replace(a, m), _replace(b, m)
         rest = [x for x in cond_atoms(a) + cond_atoms(b)]
         if rest and all(x in atoms for x in rest):
             return False, {"error": "unresolved condition %r" % (rest[0],)}
